@@ -9,8 +9,8 @@
             ("level" / "message" / "self" are extras named like Message's own arguments; a Python method sets them
             through Message.extra, a non-Python server simply writes them)
      at     "unary" (before the result) | "init" (method body of a stream, no header) | "init_hdr" (method body, header
-            declared: travels in the header stream) | "pre" (in a process() step before the batch)
-            | "post" (in a step after the batch)
+            declared: travels in the header stream) | "pre_prod" / "pre_exch" (in a process() step of a producer /
+            an exchange, before the batch) | "post_prod" / "post_exch" (in a step, after the batch)
      tr     "pipe" | "http"
    Every case must be delivered exactly once with level, text and user extras equal to what was emitted.             *)
 EXTENDS Naturals, Sequences, FiniteSets
@@ -18,7 +18,7 @@ EXTENDS Naturals, Sequences, FiniteSets
 Lvls == {"ERROR", "WARN", "INFO", "DEBUG", "TRACE"}
 Txts == {"ascii", "empty", "unicode", "multiline", "jsonish", "long"}
 Extras == {"none", "plain", "many", "unicode", "emptykey", "level", "message", "self", "both"}
-Ats == {"unary", "init", "init_hdr", "pre", "post"}
+Ats == {"unary", "init", "init_hdr", "pre_prod", "post_prod", "pre_exch", "post_exch"}
 Cases == {[lvl |-> l, txt |-> t, extra |-> x, at |-> a, tr |-> r] : l \in Lvls, t \in Txts, x \in Extras, a \in Ats, r \in {"pipe", "http"}}
 Expected(c) == [delivered |-> 1, intact |-> TRUE]
 
@@ -27,12 +27,12 @@ AlwaysDelivered(c) == Expected(c).delivered = 1 /\ Expected(c).intact
 
 (* o = [failed, delivered, level_ok, text_ok, extra_ok, before_payload]
      before_payload: the callback ran before the result / batch the message precedes was returned to the caller
-     (for at = "post" over HTTP exchange-less producers the message follows the batch: not asserted)                  *)
+     (a message logged after the batch precedes the NEXT item: not asserted for the two post emission points)                  *)
 Conforms(c, o) ==
        {"CallSucceeds"   : x \in {1} \cap (IF ~o.failed THEN {} ELSE {1})}
   \cup {"DeliveredOnce"  : x \in {1} \cap (IF o.failed \/ o.delivered = 1 THEN {} ELSE {1})}
   \cup {"LevelPreserved" : x \in {1} \cap (IF o.delivered >= 1 => o.level_ok THEN {} ELSE {1})}
   \cup {"TextPreserved"  : x \in {1} \cap (IF o.delivered >= 1 => o.text_ok THEN {} ELSE {1})}
   \cup {"ExtraPreserved" : x \in {1} \cap (IF o.delivered >= 1 => o.extra_ok THEN {} ELSE {1})}
-  \cup {"BeforeWhatItPrecedes" : x \in {1} \cap (IF (o.delivered >= 1 /\ c.at # "post") => o.before_payload THEN {} ELSE {1})}
+  \cup {"BeforeWhatItPrecedes" : x \in {1} \cap (IF (o.delivered >= 1 /\ c.at \notin {"post_prod", "post_exch"}) => o.before_payload THEN {} ELSE {1})}
 ============================================================================================
